@@ -39,6 +39,8 @@ type EntryResult struct {
 	CrossDisagree []string              `json:"cross_disagree,omitempty"`
 	InitDiag      []string              `json:"init_diag,omitempty"`
 	Stubs         []string              `json:"stubs"`
+	Completed     int                   `json:"paths_completed"`
+	ModelHits     int                   `json:"model_cache_hits"`
 }
 
 type RunOpts struct {
@@ -49,6 +51,7 @@ type RunOpts struct {
 	TimeLimit time.Duration
 	Model     map[string]string // concrete replay
 	NoMerge   bool
+	NoModelCache bool
 }
 
 func RunEntry(L *Loaded, entry string, opts RunOpts) (*EntryResult, error) {
@@ -65,6 +68,7 @@ func RunEntry(L *Loaded, entry string, opts RunOpts) (*EntryResult, error) {
 	e.Tier = opts.Tier
 	e.Verbose = opts.Verbose
 	e.NoMerge = opts.NoMerge
+	e.NoModelCache = opts.NoModelCache
 	if opts.Known != nil {
 		e.KnownOpen = opts.Known
 	}
@@ -89,7 +93,7 @@ func RunEntry(L *Loaded, entry string, opts RunOpts) (*EntryResult, error) {
 		SolverSec: e.solver.Time.Seconds(), WallSec: time.Since(t0).Seconds(), Violations: e.Violations,
 		Known: e.KnownHits, Inconclusive: dedupe(e.Inconclusive), ReachHit: e.ReachHit, Bounds: e.Bounds,
 		Assumptions: e.Assumptions, Samples: e.Samples, Witness: e.WitnessInputs, Observed: e.Observed,
-		MaxAlloc: e.MaxAlloc, CrossChecked: e.CrossChecked, CrossDisagree: e.CrossDisagree, InitDiag: e.InitDiag}
+		MaxAlloc: e.MaxAlloc, Completed: e.Completed, ModelHits: e.ModelHits, CrossChecked: e.CrossChecked, CrossDisagree: e.CrossDisagree, InitDiag: e.InitDiag}
 	if intMode {
 		res.Mode = "int"
 	} else {
@@ -118,6 +122,9 @@ func RunEntry(L *Loaded, entry string, opts RunOpts) (*EntryResult, error) {
 		res.Stubs = append(res.Stubs, s)
 	}
 	sort.Strings(res.Stubs)
+	if e.Completed == 0 && !e.Concrete {
+		res.Inconclusive = append(res.Inconclusive, "vacuous harness: no path ran to completion")
+	}
 	if len(e.CrossDisagree) > 0 {
 		res.Inconclusive = append(res.Inconclusive, "solver disagreement: "+strings.Join(e.CrossDisagree, "; "))
 	}
